@@ -98,7 +98,18 @@ fn routing(r: &mut Report, thorough: bool) {
                         r.dev("C10/routing/tls-flow-split-over-workers", "tls-split", || json!({"kind": "routing", "a": format!("{a:?}"), "b": format!("{b:?}"), "ethernet": eth, "workers": w, "indexes": t}));
                     }
                     // TCP pool: everything a host sends (to anyone, from any port) goes to one worker
-                    let other = frame_between(&Ep { port: a.port ^ 0x1234, ..*a }, &Ep { port: 22, ..*b }, SYN, 7, &[], eth);
+                    // ... and whatever the other header fields say (a later packet of the host arrives with another TTL / hop limit,
+                    // traffic class and IP id)
+                    let mut other = frame_between(&Ep { port: a.port ^ 0x1234, ..*a }, &Ep { port: 22, ..*b }, SYN, 7, &[], eth);
+                    let o = if eth { 14 } else { 0 };
+                    if a.v6 {
+                        other[o + 7] = other[o + 7].wrapping_sub(9);
+                        other[o + 1] ^= 0xf0;
+                    } else {
+                        other[o + 8] = other[o + 8].wrapping_sub(9);
+                        other[o + 1] ^= 0xfc;
+                        other[o + 4] ^= 0xff;
+                    }
                     let c: Vec<Option<usize>> = [&syn, &req, &seg2, &fin, &other].iter().map(|f| index(Pool::Tcp, f, w)).collect();
                     if c.iter().any(|x| *x != c[0]) {
                         r.dev("C10/routing/tcp-sender-split-over-workers", "tcp-split", || json!({"kind": "routing", "a": format!("{a:?}"), "b": format!("{b:?}"), "ethernet": eth, "workers": w, "indexes": c}));
@@ -435,6 +446,145 @@ fn pcap_route(r: &mut Report, thorough: bool) {
         }
     }
 }
+/// `max_connections` is a per-worker budget (the pools give every worker a table of that size, as the sequential analyzer
+/// has): K connections that the tree's own hash sends to ONE worker, all open at the same time, with max_connections = K,
+/// must be analysed in parallel mode exactly as sequentially -- whatever the number of workers the budget could be
+/// "shared" among. HTTP and TLS through analyze_pcap (init_pool, and the pool the TLS analyzer builds itself); TCP by
+/// lock-step dispatch under the injected clock (K timestamped connections of one host, SYNs first, ACKs a second later).
+fn budget_route(r: &mut Report) {
+    huginn_net_tcp::uptime::verif_clock::set_global(T0);
+    let k = 4usize;
+    let mut a4 = [0u8; 16];
+    a4[..4].copy_from_slice(&[10, 9, 8, 7]);
+    let mut s4 = [0u8; 16];
+    s4[..4].copy_from_slice(&[172, 16, 5, 5]);
+    let hello = |sni: &str| tls::bytes(&Hello { exts: vec![Ext::Sni(sni.to_string()), Ext::SupVer(vec![0x0304, 0x0303]), Ext::SigAlgs(vec![0x0403])], ..Hello::default() });
+    for workers in [2usize, 4, 16] {
+        let cfg = json!({"kind": "budget-route", "workers": workers, "max_connections": k, "connections_on_one_worker": k});
+        // --- TLS: k flows on one worker, two segments each, interleaved
+        {
+            let srv = Ep { v6: false, addr: s4, port: 443 };
+            let mut ports = vec![];
+            let mut want = None;
+            for p in 40000u16..42000 {
+                let f = frame_between(&Ep { v6: false, addr: a4, port: p }, &srv, ACK | PSH, 1001, &[0x16, 3, 1], true);
+                let i = index(Pool::Tls, &f, workers);
+                if want.is_none() {
+                    want = i;
+                }
+                if i == want && i.is_some() {
+                    ports.push(p);
+                }
+                if ports.len() == k {
+                    break;
+                }
+            }
+            if ports.len() < k {
+                r.machinery_error("budget-route: no k TLS flows on one worker");
+                continue;
+            }
+            let hs: Vec<Vec<u8>> = ports.iter().map(|p| hello(&format!("h{p}.example"))).collect();
+            let mut trace = vec![];
+            for (p, h) in ports.iter().zip(&hs) {
+                trace.push(frame_between(&Ep { v6: false, addr: a4, port: *p }, &srv, ACK | PSH, 1001, &h[..40], true));
+            }
+            for (p, h) in ports.iter().zip(&hs) {
+                trace.push(frame_between(&Ep { v6: false, addr: a4, port: *p }, &srv, ACK | PSH, 1041, &h[40..], true));
+            }
+            let seq: Vec<String> = crate::drv::tls_pcap(&trace, None, k).unwrap_or_default().into_iter().map(|x| format!("{x:?}")).collect();
+            if seq.len() != k {
+                r.machinery_error(format!("budget-route: the sequential TLS reference reports {} of {k} connections", seq.len()));
+            }
+            for init in [true, false] {
+                let res = guarded(|| crate::drv::tls_pcap_parallel(&trace, k, workers, 2, 5, init).map(|v| v.into_iter().map(|x| format!("{x:?}")).collect::<Vec<_>>()));
+                compare_named(r, "budget-route", if init { "tls" } else { "tls-own-pool" }, &cfg, res, seq.clone());
+            }
+        }
+        // --- HTTP: k connections on one worker: SYN, SYN+ACK, request in two segments, response; interleaved
+        {
+            let srv = Ep { v6: false, addr: s4, port: 80 };
+            let mut ports = vec![];
+            let mut want = None;
+            for p in 40000u16..42000 {
+                let f = frame_between(&Ep { v6: false, addr: a4, port: p }, &srv, SYN, 1000, &[], true);
+                let i = index(Pool::Http, &f, workers);
+                if want.is_none() {
+                    want = i;
+                }
+                if i == want && i.is_some() {
+                    ports.push(p);
+                }
+                if ports.len() == k {
+                    break;
+                }
+            }
+            if ports.len() < k {
+                r.machinery_error("budget-route: no k HTTP connections on one worker");
+                continue;
+            }
+            let conns: Vec<Vec<Vec<u8>>> = ports
+                .iter()
+                .map(|&p| {
+                    let c = Ep { v6: false, addr: a4, port: p };
+                    let req = format!("GET /{p} HTTP/1.1\r\nHost: c{p}.example\r\nUser-Agent: agent-{p}\r\nAccept: */*\r\n\r\n").into_bytes();
+                    let resp = format!("HTTP/1.1 200 OK\r\nServer: srv-{p}\r\nContent-Type: text/html\r\n\r\nbody").into_bytes();
+                    vec![frame_between(&c, &srv, SYN, 1000, &[], true), frame_between(&srv, &c, SYN | ACK, 5000, &[], true), frame_between(&c, &srv, ACK | PSH, 1001, &req[..20], true), frame_between(&c, &srv, ACK | PSH, 1021, &req[20..], true), frame_between(&srv, &c, ACK | PSH, 5001, &resp, true)]
+                })
+                .collect();
+            let trace = interleave(&conns);
+            let seq: Vec<String> = crate::drv::http_pcap(&trace, None, k).unwrap_or_default().into_iter().filter(|x| !x.is_empty()).map(|x| format!("{x:?}")).collect();
+            if seq.len() != 2 * k {
+                r.machinery_error(format!("budget-route: the sequential HTTP reference reports {} results for {k} exchanges", seq.len()));
+            }
+            let res = guarded(|| crate::drv::http_pcap_parallel(&trace, k, workers, 2, 5).map(|v| v.into_iter().filter(|x| !x.is_empty()).map(|x| format!("{x:?}")).collect::<Vec<_>>()));
+            compare_named(r, "budget-route", "http", &cfg, res, seq);
+        }
+        // --- TCP: k timestamped connections of ONE host (the pool shards by sender), SYNs first, ACKs one second later
+        {
+            let mk = |j: usize, flags: u8, ts: u32| pkt::build(&Spec { src: 77, dst: 9, sport: 41000 + j as u16, dport: 80, flags, seq: 1000, ack: if flags & ACK != 0 { 7 } else { 0 }, opts: ts_opts(ts, 0), ..Spec::default() });
+            let first: Vec<Vec<u8>> = (0..k).map(|j| mk(j, SYN, 1_000_000 + j as u32 * 17)).collect();
+            let second: Vec<Vec<u8>> = (0..k).map(|j| mk(j, ACK, 1_001_000 + j as u32 * 17)).collect();
+            let seq: Vec<String> = {
+                let mut a = TcpSeq::new(Some(crate::drv::db()), k);
+                crate::drv::set_clock(T0);
+                let mut v: Vec<String> = first.iter().map(|f| a.feed(f)).filter(|x| !x.is_empty()).map(|x| format!("{x:?}")).collect();
+                crate::drv::set_clock(T0 + 1000);
+                v.extend(second.iter().map(|f| a.feed(f)).filter(|x| !x.is_empty()).map(|x| format!("{x:?}")));
+                huginn_net_tcp::uptime::verif_clock::clear_local();
+                v
+            };
+            if seq.iter().filter(|x| x.contains("client_uptime: Some")).count() < k {
+                r.machinery_error("budget-route: the sequential TCP reference reports fewer than k uptime estimates");
+            }
+            let d = crate::drv::db_arc();
+            let res = guarded(|| -> Result<Vec<String>, String> {
+                let (tx, rx) = std::sync::mpsc::channel();
+                let mut an = huginn_net_tcp::HuginnNetTcp::with_config(Some(d.clone()), k, workers, 64, 2, 5).map_err(|e| e.to_string())?;
+                an.init_pool(tx).map_err(|e| e.to_string())?;
+                let pool = an.worker_pool().ok_or("no pool")?;
+                let mut got = vec![];
+                for (clock, frames) in [(T0, &first), (T0 + 1000, &second)] {
+                    huginn_net_tcp::uptime::verif_clock::set_global(clock);
+                    for f in frames.iter() {
+                        if pool.dispatch(f.clone()) != huginn_net_tcp::DispatchResult::Queued {
+                            return Err("dropped although at most one packet is in flight".into());
+                        }
+                        match rx.recv_timeout(std::time::Duration::from_secs(10)) {
+                            Ok(x) => got.push(tcp_res(&x)),
+                            Err(_) => return Err("no result within 10 s".into()),
+                        }
+                    }
+                }
+                huginn_net_tcp::uptime::verif_clock::set_global(T0);
+                drop(pool);
+                drop(an);
+                Ok(got.into_iter().filter(|x| !x.is_empty()).map(|x| format!("{x:?}")).collect())
+            });
+            huginn_net_tcp::uptime::verif_clock::set_global(T0);
+            compare_named(r, "budget-route", "tcp", &cfg, res, seq);
+        }
+    }
+}
 fn compare_route(r: &mut Report, pool: &str, cfg: &Value, res: Result<Result<Vec<String>, String>, String>, seq: Vec<String>) {
     compare_named(r, "configured-route", pool, cfg, res, seq)
 }
@@ -462,9 +612,10 @@ pub fn run(thorough: bool) -> Outcome {
     pools(&mut r, thorough);
     configured_route(&mut r);
     pcap_route(&mut r, thorough);
+    budget_route(&mut r);
     Outcome {
         report: r,
-        rule: "routing: every ordered same-family pair of 144 endpoints (12 IPv4 + 6 IPv6 addresses with all bytes varied x 8 ports), raw and Ethernet, x worker counts: SYN, SYN+ACK, request, response, further segment and FIN of a connection on one HTTP worker; all client segments on one TLS worker; everything a host sends on one TCP worker. pools: a 12-connection interleaved trace through real TCP / HTTP / TLS pools for worker counts x batch {1,2,32} x timeout {1,10} ms (schedules sampled, not enumerated) compared with the sequential analyzers as multiset and per connection / sender order; configured route: with_config + init_pool + worker_pool of each analyzer with 12 simultaneously open connections, queue size 4, capacity 64 (TCP: timestamped SYN and ACK one second apart under the injected clock), lock-step dispatch, results equal to the sequential analyzer; pcap route: with_config (+ init_pool) + analyze_pcap of each analyzer on the 12-connection trace written to a capture file, queue larger than the trace, worker counts x batch {1,2,32} x timeout {1,10} ms x repeated rounds (schedules sampled), results equal as a multiset to the same analyzer's sequential analyze_pcap; distinct = distinct routing / delivery outcomes".into(),
+        rule: "routing: every ordered same-family pair of 144 endpoints (12 IPv4 + 6 IPv6 addresses with all bytes varied x 8 ports), raw and Ethernet, x worker counts: SYN, SYN+ACK, request, response, further segment and FIN of a connection on one HTTP worker; all client segments on one TLS worker; everything a host sends on one TCP worker. pools: a 12-connection interleaved trace through real TCP / HTTP / TLS pools for worker counts x batch {1,2,32} x timeout {1,10} ms (schedules sampled, not enumerated) compared with the sequential analyzers as multiset and per connection / sender order; configured route: with_config + init_pool + worker_pool of each analyzer with 12 simultaneously open connections, queue size 4, capacity 64 (TCP: timestamped SYN and ACK one second apart under the injected clock), lock-step dispatch, results equal to the sequential analyzer; pcap route: with_config (+ init_pool) + analyze_pcap of each analyzer on the 12-connection trace written to a capture file, queue larger than the trace, worker counts x batch {1,2,32} x timeout {1,10} ms x repeated rounds (schedules sampled), results equal as a multiset to the same analyzer's sequential analyze_pcap; budget route: 4 connections that the tree's hash sends to one worker, open at the same time, max_connections = 4, workers {2,4,16}: parallel mode (HTTP / TLS through analyze_pcap incl. the pool the TLS analyzer builds itself, TCP lock-step under the injected clock) equals sequential; distinct = distinct routing / delivery outcomes".into(),
         exhaustive: true,
         bounds: json!({"endpoints": endpoints().len(), "note": "the pool part samples schedules; schedule coverage comes from the loom engine"}),
     }
@@ -476,6 +627,8 @@ pub fn replay(ex: &Value) -> Report {
         routing(&mut r, true);
     } else if ex["kind"].as_str() == Some("pcap-route") || ex["config"]["kind"].as_str() == Some("pcap-route") {
         pcap_route(&mut r, false);
+    } else if ex["config"]["kind"].as_str() == Some("budget-route") {
+        budget_route(&mut r);
     } else if ex["config"]["kind"].as_str() == Some("configured-route") {
         configured_route(&mut r);
     } else {
